@@ -11,6 +11,12 @@ from hypothesis import strategies as st
 from pbt import docs, jsongen as jg, methods as hm, refserver as ref, serverharness as sh, stack, stdreg
 from pbt.runner import Check, Disc, Outcome
 
+def registry_for(kind: str):
+    """the standard registry plus a class based view whose constructor raises (-> internal error, outside any method body)"""
+    return stdreg.std_registry(kind) + [{'name': 'bad.get', 'params': [stdreg.P('a', default=None)], 'flavour': 'aview' if kind == 'async' else 'view',
+                                        'ctx': 'view', 'ctor_raises': True}] 
+
+
 HANDLER_CODES = [-32601, -32602, -32000, -32603, 7, 2001, stack.REPLACE_BASE, stack.REPLACE_BASE + 1, stack.REPLACE_BASE + 2]
 
 
@@ -23,7 +29,7 @@ class C12(Check):
         "cases: stacks of 0..3 middlewares of kinds pass-through / short-circuit / request-rewriting (other method and params, same id) / "
         "response-rewriting x error-handler tables (none, generic only, per-code only, both, up to 2 handlers per key; kinds identity / "
         "annotate / replace-by-another-code; keys incl. the replacement codes themselves) x request documents over the 12-method registry "
-        "(successes, every failure class, notifications, failing notifications, batches, rejected documents, non-JSON) x scripted method "
+        "(successes, every failure class incl. an internal error raised outside the method body by a class based view's constructor, notifications, failing notifications, batches, rejected documents, non-JSON) x scripted method "
         "failures x sync / async dispatcher. Oracle: the reference server extended with the stack semantics predicts the response "
         "document, the executions and the exact event log (middleware enter events with method / id / params / context identity, handler "
         "events with key, received code, request) - compared as sequences. non-trivial = >= 2 middlewares, or >= 2 handlers ran, or a "
@@ -36,7 +42,7 @@ class C12(Check):
     trusted_base = ['pbt/stack.py reference model', 'pbt/refserver.py']
     required_classes = ['mw/0', 'mw/1', 'mw/2', 'mw/3', 'mw/short-circuited', 'mw/kind/rewrite-request', 'mw/kind/rewrite-response',
                         'handlers/none', 'handlers/generic', 'handlers/per-code', 'handlers/ran', 'handlers/replace-ran',
-                        'doc/batch-accepted', 'doc/not-json', 'doc/batch-rejected/invalid-element', 'notification/raises-exception',
+                        'doc/batch-accepted', 'doc/not-json', 'doc/batch-rejected/invalid-element', 'notification/raises-exception', 'call/internal-error',
                         'dispatcher/sync', 'dispatcher/async']
 
     def strategy(self, tier: str):
@@ -55,7 +61,7 @@ class C12(Check):
         )
 
         def for_kind(kind: str):
-            reg = stdreg.std_registry(kind)
+            reg = registry_for(kind) + [m for m in registry_for(kind) if m['name'] == 'bad.get'] * 2
             gen = docs.document(reg, kinds=['single'] * 5 + ['batch'] * 4 + ['raw', 'mangled', 'value'],
                                 flavours=['valid'] * 10 + ['unknown-method'] * 2 + ['deviant', 'non-object'])
             return st.builds(
@@ -76,6 +82,8 @@ class C12(Check):
                  'text': t([{'jsonrpc': '2.0', 'id': 1, 'method': 'nope'}, {'jsonrpc': '2.0', 'method': 'echo', 'params': [1]}])},
                 {'dispatcher': kind, 'behaviours': {}, 'middlewares': [{'kind': 'pass'}], 'handlers': {'generic': [{'kind': 'replace'}], 'codes': []},
                  'text': t([])},
+                {'dispatcher': kind, 'behaviours': {}, 'middlewares': [], 'handlers': {'generic': [{'kind': 'annotate'}], 'codes': [[-32603, [{'kind': 'replace'}]]]},
+                 'text': t([{'jsonrpc': '2.0', 'id': 1, 'method': 'bad.get'}, {'jsonrpc': '2.0', 'method': 'bad.get', 'params': [1]}])},
             ]
         return out
 
@@ -85,7 +93,7 @@ class C12(Check):
         ev = stack.Events()
         mws = stack.build_middlewares(spec['middlewares'], ev, is_async)
         table = stack.build_handlers(spec['handlers'], ev, is_async)
-        registry, behaviours = sh.registry_of(spec), sh.behaviours_of(spec)
+        registry, behaviours = registry_for(kind), sh.behaviours_of(spec)
         sentinel = object()
         ev.sentinel = sentinel
         hm.RT.reset(sentinel, behaviours, error_builder=sh.build_error)
